@@ -4,6 +4,7 @@ import Pyunicorn.Lemmas.NsiBetw
 import Pyunicorn.Lemmas.NsiBfs
 import Pyunicorn.Lemmas.NsiRw
 import Pyunicorn.Lemmas.NsiEig
+import Pyunicorn.Lemmas.NsiArenasReg
 import Pyunicorn.Model.NsiMeasures
 /-!
 # C02 — Node-splitting invariance of all n.s.i. measures
@@ -508,6 +509,62 @@ example : spreadMoment pathGd 2 0 = spreadMoment (split pathGd 1 (1/4)) 2 0 ∧ 
     histNBins pathGd = 3 ∧ histLowerBounds (split pathGd 1 (1/4)) = [3, 4, 5] := by
   decide +kernel
 
+
+
+/-! ### round 5: the absorbing-walk systems of `nsi_arenas_betweenness` are regular
+
+`ArenasRegular` — a hypothesis of the three theorems above — is a theorem on connected networks
+(maximum principle along walks, `Lemmas/NsiArenasReg.lean`). -/
+
+/-- `1 − sp_Pi` has a trivial kernel: connected network, positive node weights, any stopping rule
+with `σ(i, i) = 1` and `0 ≤ σ(i, ·) ≤ 1` on `N⁺(i)` -/
+theorem arenas_systems_regular (G : Gr) (hw : ∀ k, k < G.n → 0 < G.w k) (hconn : Connected G)
+    (sigma : Nat → Nat → Rat) (i : Nat) (hi : i < G.n) (hσi : sigma i i = 1)
+    (hσ : ∀ r, r < G.n → aplus G i r = 1 → 0 ≤ sigma i r ∧ sigma i r ≤ 1) :
+    ArenasRegular G sigma i :=
+  arenas_regular G hw hconn sigma i hi hσi hσ
+
+/-- `nsi_twinness` takes values in `[0, 1]` and is 1 on the diagonal of an undirected network -/
+theorem nsi_twinness_range (G : Gr) (hw : ∀ k, k < G.n → 0 < G.w k)
+    (hsym : ∀ i j, G.adj i j = G.adj j i) (a b : Nat) (ha : a < G.n) :
+    0 ≤ eval G [a, b] M.nsiTwinness ∧ eval G [a, b] M.nsiTwinness ≤ 1 ∧
+      eval G [a, a] M.nsiTwinness = 1 :=
+  ⟨(twinness_bounds G hw a b ha).1, (twinness_bounds G hw a b ha).2,
+    twinness_diag G hw (aplus_symm G hsym) a ha⟩
+
+/-- **`nsi_arenas_betweenness(stopping_mode="neighbors")` is node-splitting invariant on every
+connected loop-free network** — no regularity hypothesis: any solutions `V i` / `V' i` of the
+systems of the network and of its split copy -/
+theorem nsi_arenas_betweenness_neighbors_split_connected (G : Gr) (v : Nat) (p : Rat)
+    (hv : v < G.n) (hp0 : 0 < p) (hp1 : p < 1) (hloop : ∀ i, G.adj i i = false)
+    (hw : ∀ k, k < G.n → 0 < G.w k) (hconn : Connected G) (V V' : Nat → Nat → Nat → Rat)
+    (hV : ∀ i, i < G.n → ArenasSolves G (fun _ _ => 1) i (V i))
+    (hV' : ∀ i, i < G.n + 1 → ArenasSolves (split G v p) (fun _ _ => 1) i (V' i))
+    (excl : Bool) (j : Nat) (hj : j < G.n + 1) :
+    arenasB (split G v p) V' excl j = arenasB G V excl (collapse G.n v j) :=
+  nsi_arenas_betweenness_neighbors_split G v p hv hp0 hp1 hw V V' hV hV'
+    (fun i hi => arenas_regular (split G v p) (split_weights_pos G v p hv hp0 hp1 hw)
+      (split_connected G v p hv hloop hconn) _ i hi rfl
+      (fun _ _ _ => ⟨by norm_num, by norm_num⟩)) excl j hj
+
+/-- **`nsi_arenas_betweenness(stopping_mode="twinness")` is node-splitting invariant on every
+connected undirected loop-free network** — no regularity hypothesis -/
+theorem nsi_arenas_betweenness_twinness_split_connected (G : Gr) (v : Nat) (p : Rat)
+    (hv : v < G.n) (hp0 : 0 < p) (hp1 : p < 1) (hloop : ∀ i, G.adj i i = false)
+    (hsym : ∀ i j, G.adj i j = G.adj j i)
+    (hw : ∀ k, k < G.n → 0 < G.w k) (hconn : Connected G) (V V' : Nat → Nat → Nat → Rat)
+    (hV : ∀ i, i < G.n → ArenasSolves G (fun a b => eval G [a, b] M.nsiTwinness) i (V i))
+    (hV' : ∀ i, i < G.n + 1 →
+      ArenasSolves (split G v p) (fun a b => eval (split G v p) [a, b] M.nsiTwinness) i (V' i))
+    (excl : Bool) (j : Nat) (hj : j < G.n + 1) :
+    arenasB (split G v p) V' excl j = arenasB G V excl (collapse G.n v j) := by
+  have hw' := split_weights_pos G v p hv hp0 hp1 hw
+  have hsym' : ∀ a b, aplus (split G v p) a b = aplus (split G v p) b a := fun a b => by
+    rw [aplus_split G v p hv, aplus_split G v p hv, aplus_symm G hsym]
+  exact nsi_arenas_betweenness_twinness_split G v p hv hp0 hp1 hw V V' hV hV'
+    (fun i hi => arenas_regular (split G v p) hw' (split_connected G v p hv hloop hconn) _ i hi
+      (twinness_diag (split G v p) hw' hsym' i hi)
+      (fun r _ _ => twinness_bounds (split G v p) hw' i r hi)) excl j hj
 
 /-! ### round 5: `nsi_eigenvector_centrality`
 
